@@ -25,7 +25,7 @@ man = {
     }],
     "checks": [],
     "not_applicable": NOT_APPLICABLE,
-    "notes": "See DESIGN.md. known_findings.json lists genuine defects recorded rather than repaired and the repaired ones (fixed:).",
+    "notes": "See DESIGN.md. VERIF_STRICT=1 compares the real crate with the model answer by answer (all projections of DESIGN 0.7 off); seeds VERIF_SEED=1..5,77 were run on the unchanged tree. known_findings.json lists genuine defects recorded rather than repaired and the repaired ones (fixed:).",
 }
 for pid in sorted(CLAIMS):
     c = CLAIMS[pid]
